@@ -76,9 +76,10 @@ def select(R, behaviours, n):
             chosen.append(h)
         else:
             rest.append(h)
+    # the cover is never truncated (every transition TLC reached is replayed); n only bounds the extra sample
     if len(chosen) < n:
         chosen += rest[: n - len(chosen)]
-    return chosen[:n] if len(chosen) > n else chosen, len(uniq)
+    return chosen, len(uniq)
 
 
 def concretise(R, h, base, keybytes=None, tagseed="m"):
